@@ -71,7 +71,7 @@ func (fe *FuncEnc) mapCellAssume(f *Frame, mt *types.Map, m, k, v Term, has Term
 
 // appendCellCheck: every appended element satisfies the element component's invariant.
 func (fe *FuncEnc) appendCellCheck(f *Frame, elemT types.Type, b Term, e Term, constN int64, st *State, path Term, pos token.Pos) {
-	comp := "E_" + sortKey(fe.eng.sorts.sortOf(elemT))
+	comp := "E_" + fe.eng.sorts.elemKey(elemT)
 	ci := fe.cellInvFor(comp)
 	if ci == nil {
 		return
